@@ -14,6 +14,7 @@ CONSTANTS
   EmitOneIn = 1
   Focus <- FocusAll
   BDev <- NoBDev
+  EmitSel = "all"
 INVARIANT DeclaredCols
 INVARIANT HistOK
 INVARIANT StepLaw
